@@ -345,7 +345,7 @@ func genUhistCasePlan(r *Rng, plan *uhPlan) (*uhCase, *ubOracle) {
 	}
 	// base 0: the honest prevout; base 1: another amount for the same script and recipient
 	// (a replacement for the same outpoint); base 2: an unrelated prevout
-	c.bases = append(c.bases, mkBase(1+ubGenValue64(r)%(1<<50), scriptA, rskA, true))
+	c.bases = append(c.bases, mkBase(1000+ubGenValue64(r)%(1<<50), scriptA, rskA, true)) // enough to split over 2..4 outputs
 	c.bases = append(c.bases, mkBase(1+ubGenValue64(r)%(1<<50), scriptA, rskA, r.Bool()))
 	c.bases = append(c.bases, mkBase(1+ubGenValue64(r)%(1<<50), uhSpendableScript(r), rskB, false))
 	// base 3: the SAME script as base 0 but blinded for the other owned key (a set of blinding
@@ -506,6 +506,7 @@ func genUhistCases(r *Rng, n int, w *bufio.Writer) {
 // the commitments of the prevout in the packet; and every answer must be the answer of a
 // new generator to the same packet.
 func checkC06Uhist(t *Toks) string {
+	line := t.line
 	c := readUhist(t)
 	blinded := uhBlindBases(c)
 	if blinded == nil {
@@ -556,7 +557,10 @@ func checkC06Uhist(t *Toks) string {
 			return fail("history-differs-from-fresh", fmt.Sprintf("step%d", k))
 		}
 	}
-	return uhCheckBlindOutputs(c, blinded)
+	if v := uhCheckBlindOutputs(c, blinded); v != "OK" {
+		return v
+	}
+	return uhCheckBlindOutputsMulti(c, blinded, line)
 }
 
 type uhBlinder interface {
@@ -677,6 +681,170 @@ func uhCheckBlindOutputs(c *uhCase, blinded []*ubBlindedOut) string {
 	}
 	if d := judge(a2, repl, 7); d != "" {
 		return fail("history-blindoutputs", d)
+	}
+	return "OK"
+}
+
+// One BlindOutputs call for 2..4 outputs (distinct recipients), index list ascending,
+// descending or shuffled.  EVERY returned element must describe its own output: the reported
+// nonce is SHA256(ECDH(ephemeral public key, recipient key)) (the model's nonce_hash, evaluated
+// with the real primitive), UnblindOutputWithNonce with that nonce and UnblindOutputWithKey with
+// the recipient key return exactly the reported value / asset / blinders; and after BlindLast
+// every output of the packet opens with its own recipient key.
+func uhCheckBlindOutputsMulti(c *uhCase, blinded []*ubBlindedOut, line string) string {
+	r := ubLineRng(line, 606)
+	b0 := c.bases[0]
+	n := 2 + r.Intn(3)
+	if b0.value < uint64(n)+2 {
+		return "OK"
+	}
+	type rcpt struct {
+		key, script []byte
+		amount      uint64
+	}
+	var rc []rcpt
+	total := uint64(0)
+	for i := 0; i < n; i++ {
+		k := ubGenScalar(r)
+		amt := b0.value / uint64(n+1)
+		if i%2 == 1 && amt > 1 {
+			amt -= uint64(r.Intn(int(amt%1000) + 1))
+		}
+		if amt == 0 {
+			amt = 1
+		}
+		rc = append(rc, rcpt{key: k, script: append([]byte{0x00, 0x14}, r.Bytes(20)...), amount: amt})
+		total += amt
+	}
+	assetStr := hex.EncodeToString(elementsutil.ReverseBytes(b0.asset))
+	var outs []psetv2.OutputArgs
+	for _, x := range rc {
+		outs = append(outs, psetv2.OutputArgs{Asset: assetStr, Amount: x.amount, Script: x.script, BlindingKey: ubPubOf(x.key), BlinderIndex: 0})
+	}
+	outs = append(outs, psetv2.OutputArgs{Asset: assetStr, Amount: b0.value - total})
+	p, err := psetv2.New([]psetv2.InputArgs{{Txid: uhTxid(0), TxIndex: 0}}, outs, nil)
+	if err != nil {
+		return "OK"
+	}
+	u, err := psetv2.NewUpdater(p)
+	if err != nil {
+		return "OK"
+	}
+	if err := u.AddInWitnessUtxo(0, &transaction.TxOutput{Asset: blinded[0].ac, Value: blinded[0].vc, Script: b0.script, Nonce: b0.E}); err != nil {
+		return "OK"
+	}
+	if err := u.AddInUtxoRangeProof(0, blinded[0].proof); err != nil {
+		return "OK"
+	}
+	gg, err := uhNewGenerator(c)
+	if err != nil {
+		return "OK"
+	}
+	g, ok := gg.(interface {
+		uhBlinder
+		psetv2.BlindingGenerator
+	})
+	if !ok {
+		return "SKIP generator-interface"
+	}
+	// index list
+	order := make([]uint32, n)
+	for i := range order {
+		order[i] = uint32(i)
+	}
+	kind := r.Intn(4)
+	switch kind {
+	case 0:
+		order = nil
+	case 1:
+	case 2:
+		for i, j := 0, n-1; i < j; i, j = i+1, j-1 {
+			order[i], order[j] = order[j], order[i]
+		}
+	default:
+		for i := n - 1; i > 0; i-- {
+			j := r.Intn(i + 1)
+			order[i], order[j] = order[j], order[i]
+		}
+	}
+	tag := fmt.Sprintf("n%d:order%v", n, order)
+	var args []psetv2.OutputBlindingArgs
+	func() {
+		defer func() {
+			if e := recover(); e != nil {
+				err = fmt.Errorf("panic")
+			}
+		}()
+		args, err = g.BlindOutputs(p, order)
+	}()
+	if err != nil {
+		// the surjection proof search is randomised; a refusal is not a wrong answer
+		return "OK"
+	}
+	if len(args) != n {
+		return fail("blindoutputs-count", tag)
+	}
+	for _, a := range args {
+		if int(a.Index) >= n {
+			return fail("blindoutputs-index", tag)
+		}
+		x := rc[a.Index]
+		out := &transaction.TxOutput{Asset: a.AssetCommitment, Value: a.ValueCommitment, Script: x.script,
+			Nonce: a.NonceCommitment, RangeProof: a.ValueRangeProof}
+		want := []byte(nil)
+		if secret := ubPrimEcdh(a.NonceCommitment, x.key); secret != nil {
+			h := sha256.Sum256(secret)
+			want = h[:]
+		}
+		if !bytes.Equal(a.Nonce, want) {
+			return fail("blindoutputs-nonce", fmt.Sprintf("%s:element%d:reported-nonce-is-not-the-ecdh-nonce-of-its-recipient", tag, a.Index))
+		}
+		rn, cls := ubUnblindGuard(func() (*confidential.UnblindOutputResult, error) {
+			return confidential.UnblindOutputWithNonce(ubCloneOut(out), a.Nonce)
+		})
+		if cls != "ok" || !ubSameUnblinded(rn, x.amount, b0.asset, a.ValueBlinder, a.AssetBlinder) {
+			return fail("blindoutputs-nonce-roundtrip", fmt.Sprintf("%s:element%d:%s", tag, a.Index, cls))
+		}
+		rk, cls := ubUnblindGuard(func() (*confidential.UnblindOutputResult, error) {
+			return confidential.UnblindOutputWithKey(ubCloneOut(out), x.key)
+		})
+		if cls != "ok" || !ubSameUnblinded(rk, x.amount, b0.asset, a.ValueBlinder, a.AssetBlinder) {
+			return fail("blindoutputs-roundtrip", fmt.Sprintf("%s:element%d:%s", tag, a.Index, cls))
+		}
+	}
+	// the last blinder re-creates commitment and proof of the highest output from these arguments
+	owned, cls := uhUnblindGuard(g, p, nil)
+	if cls != "ok" {
+		return "OK"
+	}
+	blinder, err := psetv2.NewBlinder(p, owned, confidential.NewZKPValidator(), g)
+	if err != nil {
+		return "OK"
+	}
+	func() {
+		defer func() {
+			if e := recover(); e != nil {
+				err = fmt.Errorf("panic")
+			}
+		}()
+		err = blinder.BlindLast(nil, args)
+	}()
+	if err != nil {
+		return "OK" // refusing to blind is not returning other amounts
+	}
+	for i, x := range rc {
+		o := p.Outputs[i]
+		out := &transaction.TxOutput{Asset: o.AssetCommitment, Value: o.ValueCommitment, Script: o.Script,
+			Nonce: o.EcdhPubkey, RangeProof: o.ValueRangeproof}
+		rk, cls := ubUnblindGuard(func() (*confidential.UnblindOutputResult, error) {
+			return confidential.UnblindOutputWithKey(out, x.key)
+		})
+		if cls != "ok" || rk.Value != x.amount || !bytes.Equal(rk.Asset, b0.asset) {
+			return fail("blindlast-roundtrip", fmt.Sprintf("%s:output%d:%s:recipient-cannot-open-its-own-output", tag, i, cls))
+		}
+		if ubRecreates(rk, out.Asset, out.Value) != "1" {
+			return fail("blindlast-recreate", fmt.Sprintf("%s:output%d", tag, i))
+		}
 	}
 	return "OK"
 }
